@@ -11,6 +11,7 @@ TARGET = '/var/tmp/vx-witness-target'
 BUDGET = os.environ.get('VX_WITNESS_BUDGET', '20000')
 
 FAMILIES = ['try_join', 'race_ok', 'join', 'race', 'merge', 'zip', 'chain']
+LIVENESS_VIA_C01 = ('C04', 'C05', 'C06', 'C07', 'C08', 'C09', 'C10', 'C11', 'C12', 'C17', 'C19')
 
 
 def targets_for(unit):
@@ -67,8 +68,11 @@ def search(prop, failure):
     if exe is None:
         return dict(found=False, note='witness build failed (does the tree compile?): ' + err)
     tried = []
-    for (fam, cont) in tg:
-        cmd = [exe, '--family', fam, '--container', cont, '--prop', prop, '--budget', BUDGET, '--seed', os.environ.get('VERIF_SEED', '1') or '1']
+    # a functional property of a family (C04..C12, C17, C19) promises outputs; a lost wake-up in that family (the C01 monitor:
+    # Pending returned with no wake-up outstanding although a child is ready / fired) withholds them, so it is searched too
+    props = [prop] + (['C01'] if prop in LIVENESS_VIA_C01 else [])
+    for (fam, cont), prop_w in [(t, p_) for p_ in props for t in tg]:
+        cmd = [exe, '--family', fam, '--container', cont, '--prop', prop_w, '--budget', BUDGET, '--seed', os.environ.get('VERIF_SEED', '1') or '1']
         try:
             p = subprocess.run(cmd, capture_output=True, text=True, timeout=600)
         except subprocess.TimeoutExpired:
@@ -81,7 +85,8 @@ def search(prop, failure):
             tried.append(dict(cmd=' '.join(cmd), result='unparsable: ' + line[:200]))
             continue
         if j.get('found'):
-            return dict(found=True, replay_cmd='%s --replay \'%s\' --prop %s --trace' % (exe, json.dumps(j.get('scenario')), prop),
-                        family=fam, container=cont, config=j.get('config'), scenario=j.get('scenario'), observed=j.get('observed'))
+            return dict(found=True, replay_cmd='%s --replay \'%s\' --prop %s --trace' % (exe, json.dumps(j.get('scenario')), prop_w),
+                        family=fam, container=cont, config=j.get('config'), scenario=j.get('scenario'), observed=j.get('observed'),
+                        monitor=prop_w, note=('' if prop_w == prop else 'found by the %s monitor (lost wake-up): the family stops delivering, which withholds the outputs %s promises' % (prop_w, prop)))
         tried.append(dict(cmd=' '.join(cmd), result=j))
     return dict(found=False, tried=tried)
